@@ -9,6 +9,41 @@ class Unsupported(Exception): pass
 def is_self_attr(n, name=None):
     return isinstance(n, ast.Attribute) and isinstance(n.value, ast.Name) and n.value.id == "self" and (name is None or n.attr == name)
 
+MUTATORS = {"append", "extend", "insert", "add", "update", "setdefault", "pop", "popitem", "clear", "remove", "discard", "sort", "reverse", "appendleft", "popleft"}
+
+
+def alias_mutations(fn):
+    """local names bound to the shared adjacency (x = self._adjacency) must only be READ: a mutator call or a store through such a name changes the structure
+    other threads are searching.  Returns the offending (line, text) list."""
+    aliases = {n.targets[0].id for n in ast.walk(fn) if isinstance(n, ast.Assign) and len(n.targets) == 1 and isinstance(n.targets[0], ast.Name) and is_self_attr(n.value, "_adjacency")}
+
+    def root(e):
+        while isinstance(e, (ast.Attribute, ast.Subscript, ast.Call)):
+            e = e.func if isinstance(e, ast.Call) else e.value
+        return e.id if isinstance(e, ast.Name) else None
+    # a name bound to a PART of the shared structure (neighbours = adjacency[current], edges = adjacency.get(m, ...)) is an alias as well
+    changed = True
+    while changed:
+        changed = False
+        for n in ast.walk(fn):
+            if isinstance(n, ast.Assign) and len(n.targets) == 1 and isinstance(n.targets[0], ast.Name) and n.targets[0].id not in aliases \
+                    and isinstance(n.value, (ast.Subscript, ast.Attribute, ast.Call, ast.Name)) and root(n.value) in aliases \
+                    and not (isinstance(n.value, ast.Call) and isinstance(n.value.func, ast.Name)):
+                if isinstance(n.value, ast.Call) and isinstance(n.value.func, ast.Attribute) and n.value.func.attr in ("copy", "items", "keys", "values"):
+                    continue
+                aliases.add(n.targets[0].id)
+                changed = True
+    bad = []
+    for n in ast.walk(fn):
+        if isinstance(n, ast.Call) and isinstance(n.func, ast.Attribute) and n.func.attr in MUTATORS and root(n.func.value) in aliases:
+            bad.append((n.lineno, ast.unparse(n)[:60]))
+        tgts = n.targets if isinstance(n, (ast.Assign, ast.Delete)) else [n.target] if isinstance(n, (ast.AugAssign, ast.AnnAssign)) else []
+        for t in tgts:
+            if isinstance(t, (ast.Subscript, ast.Attribute)) and root(t) in aliases:
+                bad.append((n.lineno, ast.unparse(t)[:60]))
+    return bad
+
+
 def touches(node):
     return any(is_self_attr(n) and n.attr in SHARED for n in ast.walk(node))
 
@@ -184,6 +219,12 @@ def program(repo):
     path = os.path.join(repo, "sidemantic/core/semantic_graph.py")
     if not add_model_invalidates(path):
         raise Unsupported("add_model does not unconditionally invalidate the adjacency cache (no top-level `self._adjacency_dirty = True`)")
+    tree = ast.parse(open(path).read())
+    for cls in [n for n in tree.body if isinstance(n, ast.ClassDef) and n.name == "SemanticGraph"]:
+        for fn in [n for n in cls.body if isinstance(n, ast.FunctionDef)]:
+            bad = alias_mutations(fn)
+            if bad:
+                raise Unsupported("the shared adjacency is mutated through a local alias in %s: %s" % (fn.name, "; ".join("line %d `%s`" % b for b in bad[:3])))
     extra = unmodelled_writes(path)
     if extra:
         raise Unsupported("planning call writes state the model does not know: " + ", ".join("self.%s in %s (line %d)" % e for e in extra[:4]))
